@@ -46,6 +46,15 @@ fn worker_main() -> i32 {
         println!("{}", serde_json::json!({"fatal": format!("seam self-test failed: {}", e)}));
         return 2;
     }
+    // atomics leg: scheduling depends on the number of atomic operations the code under test
+    // executes, and one-time initialisations in dependencies (CPU feature detection, lazy statics)
+    // execute some only the first time in a process — do them before the first scenario
+    #[cfg(sdsim_tsan)]
+    {
+        for check in ["C10", "C14"] {
+            let _ = profiles::execute(&profiles::generate(check, 0x5eed, profiles::tier_from("quick")));
+        }
+    }
     println!("{}", serde_json::json!({"ready": true}));
     let stdin = std::io::stdin();
     let stdout = std::io::stdout();
